@@ -8,6 +8,7 @@ import (
 	"math/rand/v2"
 	"net"
 	"net/netip"
+	"os"
 	"sync"
 	"time"
 
@@ -29,7 +30,16 @@ func c05Shift(k int) time.Duration {
 	return time.Duration(1000*math.Pow(3, float64(k+1))) * time.Second
 }
 
+// c05FarShift is what the "both 45 years ahead" datagram adds to its tag.
+const c05FarShift = 45 * 365 * 86400 * time.Second
+
 func c05Identify(off time.Duration, n int) (k int, ok bool) {
+	for k = 0; k < n; k++ { // an acceptable datagram whose own clock is decades ahead
+		d := off - c05Shift(k) - c05FarShift
+		if d > -20*time.Second && d < 20*time.Second {
+			return k, true
+		}
+	}
 	near := func(a, b time.Duration) bool { d := a - b; return d > -20*time.Second && d < 20*time.Second }
 	if near(off, 0) {
 		return -1, true // the genuine terminator
@@ -79,8 +89,11 @@ func c05Accept(b []byte, rq *c05Req, fromServer bool) bool {
 	if mode != 4 || (vn != 3 && vn != 4) || li == 3 || f.Stratum < 1 || f.Stratum > 15 {
 		return false
 	}
-	if f.Origin == rq.f.Transmit && f.Transmit < f.Receive { // basic reply: transmit time not before its receive time
-		if f.Receive-f.Transmit < 9 {
+	// basic reply: transmit time not before its receive time (compared as signed distances from the
+	// request's transmit time, so that timestamps decades away on either side keep their order)
+	dTx, dRx := int64(f.Transmit-rq.f.Transmit), int64(f.Receive-rq.f.Transmit)
+	if f.Origin == rq.f.Transmit && dTx < dRx {
+		if dRx-dTx < 9 {
 			return true // below the nanosecond resolution of the client's clock: not judged as "before"
 		}
 		return false
@@ -116,6 +129,20 @@ func c05HeaderMuts(rng *rand.Rand, full bool) []c05Mut {
 		// 9 units of 2^-32 s = 2.1 ns: at least one nanosecond after the client's truncating conversion
 		c05Mut{name: "transmit 2 ns before receive", hdr: func(f *peer.NTPFields, _ *c05Req) { f.Transmit = f.Receive - 9 }},
 		c05Mut{name: "transmit equals receive", hdr: func(f *peer.NTPFields, _ *c05Req) { f.Transmit = f.Receive }},
+		// two cooperating fields: each plausible alone, together transmit lies decades before receive
+		c05Mut{name: "receive 40 years ahead, transmit 50 years behind", hdr: func(f *peer.NTPFields, _ *c05Req) {
+			f.Receive += uint64(40*365*86400) << 32
+			f.Transmit -= uint64(50*365*86400) << 32
+		}},
+		c05Mut{name: "receive 60 years ahead, transmit 60 years behind", hdr: func(f *peer.NTPFields, _ *c05Req) {
+			f.Receive += uint64(60*365*86400) << 32
+			f.Transmit -= uint64(60*365*86400) << 32
+		}},
+		c05Mut{name: "receive 30 years ahead, transmit now", hdr: func(f *peer.NTPFields, _ *c05Req) { f.Receive += uint64(30*365*86400) << 32 }},
+		c05Mut{name: "both 45 years ahead (transmit after receive)", hdr: func(f *peer.NTPFields, _ *c05Req) {
+			f.Receive += uint64(45*365*86400) << 32
+			f.Transmit += uint64(45*365*86400)<<32 + 1000
+		}},
 		c05Mut{name: "transmit a second before receive", hdr: func(f *peer.NTPFields, _ *c05Req) { f.Transmit = f.Receive - 1<<32 }},
 		c05Mut{name: "other fields random", hdr: func(f *peer.NTPFields, _ *c05Req) {
 			f.Poll, f.Precision, f.RootDelay, f.Dispersion, f.RefID, f.Reference = int8(rng.IntN(256)), int8(rng.IntN(256)), rng.Uint32(), rng.Uint32(), rng.Uint32(), rng.Uint64()
@@ -160,6 +187,8 @@ type c05Peer struct {
 	sentBytes [][]byte
 	requests  int
 	inter     int
+	withhold  bool   // answer nothing this time, but keep the genuine response
+	held      []byte // genuine response that was withheld
 	wrap      func(payload []byte, rq *c05Req, mut *c05Mut) []byte // transport framing (SCION); nil for IP
 	unwrap    func(b []byte) (payload []byte, ok bool)
 }
@@ -178,6 +207,7 @@ func (p *c05Peer) handle(s *peer.NTPServer, dg []byte, from netip.AddrPort, rx t
 	if !ok {
 		return
 	}
+	f2 := f
 	rq := &c05Req{f: f, raw: payload, interleaved: f.Origin != 0 && f.Receive != f.Transmit, from: from, rx: rx}
 	p.requests++
 	if rq.interleaved {
@@ -273,6 +303,12 @@ func (p *c05Peer) handle(s *peer.NTPServer, dg []byte, from netip.AddrPort, rx t
 				} else {
 					full = b
 				}
+			case "withheld response of the previous request with the new unique id appended":
+				if p.held != nil {
+					full = append([]byte{}, p.held...)
+					full = append(full, 0x01, 0x04, 0x00, 36)
+					full = append(full, rq.uid[:32]...)
+				}
 			case "replayed response of the previous exchange":
 				if p.lastResp != nil {
 					full = append([]byte{}, p.lastResp...)
@@ -315,6 +351,18 @@ func (p *c05Peer) handle(s *peer.NTPServer, dg []byte, from netip.AddrPort, rx t
 			p.sentBytes[k] = b
 		}
 	}
+	if os.Getenv("VERIF_DEBUG") != "" {
+		if f, err := os.OpenFile("/tmp/c05dbg.log", os.O_APPEND|os.O_CREATE|os.O_WRONLY, 0o644); err == nil {
+			fmt.Fprintf(f, "REQ withhold=%v inter=%v origin=%x rx=%x tx=%x script=%d held=%v\n", p.withhold, rq.interleaved, f2.Origin, f2.Receive, f2.Transmit, len(p.script), p.held != nil)
+			f.Close()
+		}
+	}
+	if p.withhold {
+		// the response is lost on its way; whoever saw it can replay it later. It carries the tag of
+		// script position 0 so that an offset computed from the replay is recognisable.
+		p.held, _ = build(0, nil)
+		return
+	}
 	g, _ := build(-1, nil)
 	if gf, ok := peer.ParseNTP(g); ok {
 		p.lastRx[from.Addr()] = gf.Receive
@@ -327,6 +375,10 @@ func (p *c05Peer) handle(s *peer.NTPServer, dg []byte, from netip.AddrPort, rx t
 }
 
 // c05Leg runs the scripts against one client configuration. measure performs one call of the real client.
+// c05Spy, when set, is the filter of the client under test: it sees every sample the client
+// accepts, also those of an attempt whose result a later attempt of the same call overwrites.
+var c05Spy *c03Spy
+
 func c05Leg(r *ev.Run, name string, p *c05Peer, muts []c05Mut, measure func(ctx context.Context) (time.Time, time.Duration, error), rng *rand.Rand, nScripts int) {
 	successGenuine, calls := 0, 0
 	// prime (and count) with genuine-only scripts
@@ -343,6 +395,11 @@ func c05Leg(r *ev.Run, name string, p *c05Peer, muts []c05Mut, measure func(ctx 
 		var off time.Duration
 		var ts time.Time
 		var err error
+		if c05Spy != nil {
+			c05Spy.mu.Lock()
+			c05Spy.all = nil
+			c05Spy.mu.Unlock()
+		}
 		pnc := c02Recover(func() { ts, off, err = measure(ctx) })
 		cancel()
 		calls++
@@ -362,6 +419,19 @@ func c05Leg(r *ev.Run, name string, p *c05Peer, muts []c05Mut, measure func(ctx 
 			r.Violation(name+"|panic|"+scriptClass(script), id, w)
 			return
 		}
+		if err != nil && c05Spy != nil {
+			c05Spy.mu.Lock()
+			samples := append([][4]time.Time{}, c05Spy.all...)
+			c05Spy.mu.Unlock()
+			for _, q := range samples {
+				so := (q[1].Sub(q[0]) + q[2].Sub(q[3])) / 2
+				if k, ok := c05Identify(so, len(script)); ok && k >= 0 && !sent[k] {
+					w["accepted_datagram"], w["sample_offset"] = ev.Hex(sentBytes[k]), so.String()
+					r.Violation(name+"|wrong-value:offset computed from a datagram that must not be accepted|"+script[k].name, id, w)
+					return
+				}
+			}
+		}
 		if err != nil {
 			if len(script) == 0 {
 				r.Class(name + ":genuine-only:error")
@@ -369,6 +439,19 @@ func c05Leg(r *ev.Run, name string, p *c05Peer, muts []c05Mut, measure func(ctx 
 				r.Class(name + ":error-on:" + script[0].name)
 			}
 			return
+		}
+		if c05Spy != nil { // samples accepted on the way, whatever the call finally returned
+			c05Spy.mu.Lock()
+			samples := append([][4]time.Time{}, c05Spy.all...)
+			c05Spy.mu.Unlock()
+			for _, q := range samples {
+				so := (q[1].Sub(q[0]) + q[2].Sub(q[3])) / 2
+				if k, ok := c05Identify(so, len(script)); ok && k >= 0 && !sent[k] {
+					w["accepted_datagram"], w["sample_offset"] = ev.Hex(sentBytes[k]), so.String()
+					r.Violation(name+"|wrong-value:offset computed from a datagram that must not be accepted|"+script[k].name, id, w)
+					return
+				}
+			}
 		}
 		if ts.IsZero() {
 			// success without a receive timestamp: no datagram stands behind the reported offset
@@ -455,8 +538,11 @@ func init() {
 			p := newPeer(0)
 			c := &client.IPClient{Log: log, InterleavedMode: inter}
 			name := "ip-client"
+			c05Spy = nil
 			if inter {
 				name = "ip-client(interleaved)"
+				c05Spy = &c03Spy{}
+				c.Filter = c05Spy
 			}
 			remote := net.UDPAddrFromAddrPort(p.srv.Addr)
 			c05Leg(r, name, p, c05HeaderMuts(rng, r.Thorough()), func(ctx context.Context) (time.Time, time.Duration, error) {
@@ -483,6 +569,7 @@ func init() {
 				return peer.KEMessage(15, srvIP.String(), p.srv.Addr.Port(), cs), nil, -1
 			})
 			c := &client.IPClient{Log: log}
+			c05Spy = nil
 			c.Auth.Enabled = true
 			c.Auth.NTSKEFetcher = *c20NewFetcher(netip.AddrPortFrom(srvIP, uint16(ke.L.Addr().(*net.TCPAddr).Port)))
 			muts := append(c05NTSMuts(), c05HeaderMuts(rng, false)...)
@@ -491,6 +578,82 @@ func init() {
 			}, rng, nScripts)
 			p.srv.Close()
 			ke.Close()
+		}
+		// ---- IP with NTS and interleaved mode: a withheld response replayed to the next request, which
+		// repeats the same NTP header (the client learned nothing) under a fresh unique identifier
+		{
+			p := newPeer(0)
+			p.nts = true
+			ke, err := peer.NewNTSKEServer(netip.AddrPortFrom(srvIP, 0), nil, nil)
+			if err == nil {
+				p.ke = ke
+				ke.SetScript(func(c *peer.NTSKEConn) ([]byte, []int, int) {
+					var cs [][]byte
+					for i := 0; i < 8; i++ {
+						cs = append(cs, peer.TaggedCookie(c.ID, i, 100))
+					}
+					return peer.KEMessage(15, srvIP.String(), p.srv.Addr.Port(), cs), nil, -1
+				})
+				// every sample the client accepts goes through its filter: a spy filter shows samples that are
+				// accepted within a call even if a later attempt of the same call overwrites the returned value
+				spy := &c03Spy{}
+				c := &client.IPClient{Log: log, InterleavedMode: true, Filter: spy}
+				c.Auth.Enabled = true
+				c.Auth.NTSKEFetcher = *c20NewFetcher(netip.AddrPortFrom(srvIP, uint16(ke.L.Addr().(*net.TCPAddr).Port)))
+				name := "ip-client(NTS,interleaved)"
+				call := func(d time.Duration) (time.Time, time.Duration, error) {
+					ctx, cancel := context.WithTimeout(context.Background(), d)
+					defer cancel()
+					return client.MeasureClockOffsetIP(ctx, log, c, local, &net.UDPAddr{IP: srvIP.AsSlice(), Port: 1})
+				}
+				setScript := func(sc []c05Mut, withhold bool) {
+					p.mu.Lock()
+					p.script, p.withhold = sc, withhold
+					p.sent, p.sentBytes = make([]bool, len(sc)), make([][]byte, len(sc))
+					p.mu.Unlock()
+				}
+				replay := c05Mut{name: "withheld response of the previous request with the new unique id appended", nts: "withheld response of the previous request with the new unique id appended", forceBad: true}
+				for i := 0; i < r.Pick(12, 300); i++ {
+					id := fmt.Sprintf("%s.w%d", name, i)
+					if r.Only() != "" && r.Only() != id {
+						continue
+					}
+					setScript(nil, false)
+					_, _, e1 := call(time.Second) // reach interleaved mode
+					setScript(nil, true)
+					_, _, e2 := call(60 * time.Millisecond) // the interleaved request's response is lost
+					setScript([]c05Mut{replay}, false)
+					spy.mu.Lock()
+					spy.all = nil
+					spy.mu.Unlock()
+					ts, off, e3 := call(time.Second)
+					r.Eval(3)
+					spy.mu.Lock()
+					for _, q := range spy.all { // a sample computed from the replayed datagram?
+						so := (q[1].Sub(q[0]) + q[2].Sub(q[3])) / 2
+						if k, ok := c05Identify(so, 1); ok && k == 0 {
+							off, e3, ts = so, nil, q[3]
+						}
+					}
+					spy.mu.Unlock()
+					w := map[string]any{"client": name, "steps": []string{"genuine: " + fmt.Sprint(e1), "response withheld: " + fmt.Sprint(e2), "replay with appended id, then genuine: " + fmt.Sprint(e3)}, "offset": off.String()}
+					if os.Getenv("VERIF_DEBUG") != "" {
+						if f, err := os.OpenFile("/tmp/c05dbg.log", os.O_APPEND|os.O_CREATE|os.O_WRONLY, 0o644); err == nil { fmt.Fprintln(f, "DEBUG", w); f.Close() }
+					}
+					if e3 == nil && !ts.IsZero() {
+						if k, ok := c05Identify(off, 1); ok && k == 0 {
+							r.Violation(name+"|wrong-value:offset computed from a datagram that must not be accepted|"+replay.name, id, w)
+						} else {
+							r.Class(name + ":skipped:" + replay.name)
+						}
+					} else {
+						r.Class(name + ":error-on:" + replay.name)
+					}
+					r.Distinct(id)
+				}
+				ke.Close()
+			}
+			p.srv.Close()
 		}
 		c05SCION(r, rng, nScripts)
 		r.Sample(map[string]any{"script": []string{"origin off by one unit or second", "genuine"}, "tagging": "crafted datagram k reports a server clock 1000 s x 3^(k+1) ahead; the genuine terminator reports the true time",
